@@ -177,7 +177,13 @@ def run(ctx, prog):
                 return 'method not removed exactly once'
             ins = p.find_calls(r'%s::insert_method$' % docty)
             if p.took(rm[0], 'None'):
-                return None if (isinstance(res, VAgg) and res.variant == 'Err' and not ins) else 'missing method not reported'
+                if not (isinstance(res, VAgg) and res.variant == 'Err' and not ins):
+                    return 'missing method not reported'
+                # remove_method_and_scope removes references to the id even when it finds no method (they may point into another
+                # document): "not found" is an error like any other and has to leave the document as it was
+                snap0 = [c for c in p.calls if re.search(r'%s as .*Clone>::clone$|%s::clone$' % (docty, docty), c.name) and p.calls.index(c) < p.calls.index(rm[0])]
+                back = [v for k_, v in p.st.mem.items() if isinstance(k_, str) and k_.startswith('sym:') and isinstance(v, VSym) and snap0 and v.term == snap0[0].ret]
+                return None if back else 'MethodNotFound returned after remove_method_and_scope ran, without restoring the document (references to the id are gone)'
             removed = ('field', rm[0].ret, 0, 'Some')
             gk = awaited(p, r'KeyIdStorage>::get_key_id$')
             jn = [c for c in p.calls if re.search(r'Future>::poll$', c.name) and re.search(r'PollFn|join', term_str(('x', tuple(c.args))))]
@@ -217,7 +223,7 @@ def run(ctx, prog):
                 if kd == 'Ok' or (kidd == 'Ok' and not (reins and p.took(ready_val(reins[0][1]), 'Ok'))):
                     return 'plain error although a key / key id was deleted and not restored (%s, %s)' % (kd, kidd)
             return None
-        A.require('purge_method[%s]/all-or-nothing-over-every-fault-subset' % docty, paths, r_purge, replay=R('[purge]'))
+        A.require('purge_method[%s]/all-or-nothing-over-every-fault-subset' % docty, paths, r_purge, replay=R('[purge'))
 
     # ------------------------------------------------------------------ rollback completeness: what removal destroys vs. what it returns
     if ROLLBACK_MODES == {'snapshot'}:
